@@ -1,9 +1,10 @@
 (* Property C09 -- the type graph is a complete dependency order with every cycle cut.
    This file contains only the property theorems (each closed by a lemma of Proofs/), the full statements
    that are not theorems of the faithful model, the refutation witnesses, and non-vacuity examples. *)
-From Coq Require Import List Arith Bool PeanoNat String Lia.
+From Coq Require Import List Arith Bool PeanoNat String Lia NArith.
 Import ListNotations.
 Require Import TL.Model.Graph TL.Model.Topo TL.Proofs.GraphLemmas TL.Proofs.GraphTermination TL.Proofs.TopoLemmas.
+Require Import TL.Proofs.TopoRank TL.Proofs.GraphAcyclic TL.Proofs.GraphWeight.
 Local Open Scope string_scope.
 Local Open Scope list_scope.
 
@@ -130,11 +131,41 @@ Proof.
   intros evalref fuel E a m t He Hr. unfold static_order. rewrite He. destruct t; try reflexivity. discriminate.
 Qed.
 
-(* ---- acyclicity: stated, not proved -------------------------------------------------------- *)
-(* The adjacency is acyclic (graphlib raises no CycleError).  Not proved; on every correspondence case the
-   concrete sorter Topo.kahn is compared with graphlib (Some order / CycleError). *)
-Definition C09_acyclic_full : Prop :=
+(* ---- acyclicity: every cycle is cut ---------------------------------------------------------- *)
+(* The adjacency that was built always has a topological order in the sense of graphlib's contract, i.e. it
+   is acyclic up to node equality and graphlib cannot raise CycleError.  Proof: a rank that strictly decreases
+   along every edge -- deferred nodes (0) < nodes that cannot be cyclic (1 + size of the unwrapped form; their
+   members cannot be cyclic either and are smaller) < cyclic-capable nodes (by reverse position of their first
+   entry: a cyclic-capable, non-deferred predecessor was unknown to the `expanded`/`visited` memory when its
+   parent was popped, so no entry up to the parent's is keyed by an equal node). *)
+Theorem C09_acyclic : forall fuel E root g,
+  type_graph fuel E root = Ok g -> exists order, is_topo_order g order.
+Proof. intros fuel E root g H. exact (type_graph_has_order fuel E root g H). Qed.
+
+(* the rank itself: every edge goes from a node to a node of strictly smaller rank, equal nodes have equal rank *)
+Theorem C09_acyclic_rank : forall fuel E root g,
+  type_graph fuel E root = Ok g ->
+  (forall a b, node_eqb a b = true -> rank E g a = rank E g b) /\
+  (forall p preds m, In (p, preds) g -> In m preds -> rank E g m < rank E g p).
+Proof.
+  intros fuel E root g H.
+  exact (conj (rank_cong E g) (fun p preds m Hp Hm => bfs_ranked fuel E root g H p preds m Hp Hm)).
+Qed.
+
+(* Not proved: that the concrete sorter Topo.kahn (CPython's algorithm) returns such an order; it is compared
+   with graphlib on every correspondence case. *)
+Definition C09_kahn_complete : Prop :=
   forall fuel E root g, type_graph fuel E root = Ok g -> exists order, kahn g = Some order.
+
+(* ---- termination without a certificate ------------------------------------------------------- *)
+(* For every finite universe closed under members the weight certificate of C09_terminates exists
+   (GraphWeight.weight, bounded by Wtotal): the walk never runs out of fuel once
+   fuel >= Wtotal E univ * (|univ| + 1). *)
+Theorem C09_terminates_closed : forall (E : env) (univ : list gty),
+  (forall t var c, In t univ -> In (var, c) (level E (unwrap t)) -> skip var c = false -> In c univ) ->
+  forall root, In root univ ->
+  forall fuel, fuel >= Wtotal E univ * S (List.length univ) -> type_graph fuel E root <> OutOfFuel.
+Proof. intros E univ Hc root Hr fuel Hf. exact (terminates_closed E univ Hc root Hr fuel Hf). Qed.
 
 (* ---- non-vacuity --------------------------------------------------------------------------- *)
 Definition ex_env : env := env_of
@@ -169,9 +200,21 @@ Proof.
     vm_compute. repeat split; reflexivity.
 Qed.
 
+(* the certificate-free theorem applies to the same environment; its bound is a closed number *)
+Example C09_terminates_closed_instance :
+  N.of_nat (Wtotal ex_env ex_univ) = 13656%N /\
+  forall fuel, fuel >= Wtotal ex_env ex_univ * 6 -> type_graph fuel ex_env (GClass 0) <> OutOfFuel.
+Proof.
+  split; [vm_compute; reflexivity|]. intros fuel Hf.
+  apply (C09_terminates_closed ex_env ex_univ (proj1 C09_terminates_hyps_satisfiable) (GClass 0)); [left; reflexivity | exact Hf].
+Qed.
+
 Print Assumptions C09_terminates.
 Print Assumptions C09_order.
 Print Assumptions C09_flags.
 Print Assumptions C09_string_alias.
 Print Assumptions C09_denotes.
 Print Assumptions C09_input_forms.
+Print Assumptions C09_acyclic.
+Print Assumptions C09_acyclic_rank.
+Print Assumptions C09_terminates_closed.
